@@ -30,10 +30,20 @@ const (
 	kNvp      = 14 // name = value inside [...]
 	kMod      = 15 // ~modifier inside [...]
 	kItem     = 16 // array item
+	kImport   = 17 // import statement (module.imports[i].source_context)
+	kEnum     = 18
+	kAlias    = 19
+	kUnion    = 20
+	kMember   = 21 // member of a union
+	kDoc      = 22 // "| text" statement: the end is the stop token's
+	kParam    = 23 // parameter of an endpoint / event / REST method (a field rule)
+	kHolder   = 24 // the "..." body of an application: an endpoint named "..." that records nothing
+	kQuery    = 25 // query parameter of a REST method ("?q=int"): EnterQuery_var, own context only
 )
 
 var kindClass = map[int]string{kApp: "app", kType: "type", kField: "field", kEndpoint: "endpoint", kEvent: "event", kMethod: "rest-endpoint",
-	kText: "statement", kPlain: "statement", kBlock: "statement", kOneOf: "statement", kAnno: "annotation", kNvp: "annotation", kMod: "annotation", kItem: "annotation"}
+	kText: "statement", kPlain: "statement", kBlock: "statement", kOneOf: "statement", kAnno: "annotation", kNvp: "annotation", kMod: "annotation", kItem: "annotation",
+	kImport: "import", kEnum: "type", kAlias: "type", kUnion: "type", kMember: "union-member", kDoc: "statement", kParam: "parameter", kHolder: "endpoint", kQuery: "parameter"}
 
 type item struct {
 	Syn  bool // synthetic DEDENT
@@ -59,6 +69,8 @@ type Decl struct {
 	BCol  int      `json:"bcol"` // in bytes (diagnostics only)
 	Show  string   `json:"show"` // first characters of the declaration (diagnostics)
 	Form  string   `json:"form,omitempty"` // value form of an attribute / annotation
+	// written inside an !enum / !alias / !union that a later declaration of the same name replaced: not in the module
+	Replaced bool `json:"replaced,omitempty"`
 }
 
 type fileOut struct {
@@ -72,6 +84,7 @@ type fileOut struct {
 
 type layoutOpts struct {
 	plain bool // canonical layout: 4 spaces, no comments, no blank lines
+	crlf  bool // lines end in \r\n
 }
 
 type renderer struct {
@@ -92,10 +105,15 @@ type renderer struct {
 	stmtN    map[string]int // endpoint path -> number of statements so far
 	modN     map[string]int // owner path -> number of context-bearing pattern elements so far
 	annoSeen map[string]bool // owner|name -> a non-empty value has been declared (later values are dropped)
+	paramN   map[string]int  // endpoint path -> number of parameters so far
+	lastDoc  map[string]bool // statement scope -> its last statement so far is a doc string
+	impN     int             // import statements so far (all files)
+	likeKids map[string][]*Decl // enum / alias / union path -> what its latest declaration holds
 }
 
 func newRenderer(lay *common.Rng, o layoutOpts) *renderer {
-	return &renderer{lay: lay, opts: o, keys: map[string]int{}, stmtN: map[string]int{}, modN: map[string]int{}, annoSeen: map[string]bool{}}
+	return &renderer{lay: lay, opts: o, keys: map[string]int{}, stmtN: map[string]int{}, modN: map[string]int{}, annoSeen: map[string]bool{},
+		paramN: map[string]int{}, lastDoc: map[string]bool{}, likeKids: map[string][]*Decl{}}
 }
 
 func (r *renderer) key(s string) int {
@@ -290,6 +308,9 @@ func (r *renderer) finishFile(forest []*node) fileOut {
 		r.nl()
 	}
 	text := strings.Join(r.texts, "\n")
+	if r.opts.crlf {
+		text = strings.Join(r.texts, "\r\n")
+	}
 	dl := 0
 	if text != "" {
 		_, dl = utf8.DecodeRuneInString(text)
@@ -520,8 +541,36 @@ func (r *renderer) stmts(ss []Stmt, width int, scope string, counter *int) []*no
 		idx := *counter
 		*counter++
 		path := fmt.Sprintf("%s.%d", scope, idx)
+		if s.Kind == sDoc && r.lastDoc[scope] {
+			// doc-string lines that follow a doc-string statement of the same scope (possibly written by an earlier
+			// declaration of the endpoint) are added to that statement: no statement, no location
+			*counter--
+			for _, l := range s.Lines {
+				r.begin(width)
+				r.tok("|")
+				r.tok(" " + l)
+				r.nl()
+			}
+			continue
+		}
+		r.lastDoc[scope] = s.Kind == sDoc
 		r.begin(width)
 		switch s.Kind {
+		case sDoc:
+			d := r.decl(kDoc, path, []string{path}, "| "+s.Lines[0])
+			n := &node{Kind: kDoc, Key: d.Key}
+			for i, l := range s.Lines {
+				if i > 0 {
+					r.begin(width)
+				}
+				o := r.tok("|")
+				t := r.tok(" " + l)
+				if i == 0 {
+					n.First, n.Last = o, t
+				}
+				r.nl()
+			}
+			out = append(out, n)
 		case sText, sQText:
 			txt := s.Text
 			if s.Kind == sQText {
@@ -646,7 +695,132 @@ func (r *renderer) stmts(ss []Stmt, width int, scope string, counter *int) []*no
 
 // ---- members ----
 
+// param writes "name <: type [attributes]" inside the parentheses of an endpoint header
+func (r *renderer) params(ep string, ps []Field) []*node {
+	var out []*node
+	r.ogap("")
+	r.tok("(")
+	for i, f := range ps {
+		if i > 0 {
+			r.ogap("")
+			r.tok(",")
+			r.ogap(" ")
+		} else {
+			r.ogap("")
+		}
+		pp := fmt.Sprintf("P|%s|%d", ep, r.paramN[ep])
+		r.paramN[ep]++
+		d := r.decl(kParam, pp, []string{pp}, f.Name+" <: "+f.Type)
+		n := &node{Kind: kParam, Key: d.Key}
+		n.First = r.tok(f.Name)
+		r.ogap(" ")
+		r.tok("<:")
+		r.ogap(" ")
+		n.Last = r.typeSpelling(f.Type)
+		if len(f.Attrs) > 0 {
+			r.ogap(" ")
+			n.Attrs = r.attribs(f.Attrs, []string{pp}, nil)
+			n.Last = r.ord - 1
+		}
+		out = append(out, n)
+	}
+	r.ogap("")
+	r.tok(")")
+	return out
+}
+
+// typeLike writes an enum, alias or union
+func (r *renderer) typeLike(app string, t TypeD, width int) *node {
+	tp := "T|" + app + "|" + t.Name
+	if old, again := r.likeKids[tp]; again {
+		// a second declaration REPLACES the type: attributes, annotations and members of the first are gone
+		for _, d := range old {
+			d.Replaced = true
+		}
+		for k := range r.annoSeen {
+			if strings.HasPrefix(k, tp+"|") {
+				delete(r.annoSeen, k)
+			}
+		}
+		r.modN[tp] = 0
+	}
+	at := len(r.decls) + 1
+	defer func() { r.likeKids[tp] = append([]*Decl{}, r.decls[at:]...) }()
+	r.begin(width)
+	kw, kind := "!enum", kEnum
+	switch t.Form {
+	case tAlias:
+		kw, kind = "!alias", kAlias
+	case tUnion:
+		kw, kind = "!union", kUnion
+	}
+	d := r.decl(kind, tp, []string{tp}, kw+" "+t.Name)
+	n := &node{Kind: kind, Key: d.Key}
+	n.First = r.tok(kw)
+	r.gap()
+	r.tok(t.Name)
+	if len(t.Attrs) > 0 {
+		r.ogap(" ")
+		n.Attrs = r.attribs(t.Attrs, []string{tp}, nil)
+	}
+	r.ogap("")
+	r.tok(":")
+	if t.Form == tAlias && t.Inline {
+		r.gap()
+		n.Last = r.typeSpelling(t.Target)
+		r.end(false)
+		return n
+	}
+	if t.Form == tUnion && len(t.Members) == 0 && len(t.Annos) == 0 {
+		r.gap()
+		n.Last = r.tok("...")
+		r.end(false)
+		return n
+	}
+	r.end(true)
+	cw := r.childWidth(width)
+	for _, a := range t.Annos {
+		n.Kids = append(n.Kids, r.anno(a, cw, []string{tp}, nil))
+	}
+	switch t.Form {
+	case tEnum:
+		for i, m := range t.Members {
+			r.begin(cw)
+			r.tok(m)
+			r.ogap("")
+			r.tok(":")
+			r.ogap(" ")
+			r.tok(fmt.Sprint(i + 1))
+			r.end(false)
+		}
+	case tAlias:
+		r.begin(cw)
+		r.typeSpelling(t.Target)
+		r.end(false)
+	case tUnion:
+		for i, m := range t.Members {
+			mp := fmt.Sprintf("U|%s|%s|%d", app, t.Name, i)
+			r.begin(cw)
+			md := r.decl(kMember, mp, []string{mp}, m)
+			mn := &node{Kind: kMember, Key: md.Key, First: r.ord}
+			mn.Last = r.typeSpelling(m)
+			r.end(false)
+			n.Kids = append(n.Kids, mn)
+		}
+		if len(t.Members) == 0 {
+			r.begin(cw)
+			r.tok("...")
+			r.end(false)
+		}
+	}
+	r.closeBody(n)
+	return n
+}
+
 func (r *renderer) typeD(app string, t TypeD, width int) *node {
+	if t.Form != tType {
+		return r.typeLike(app, t, width)
+	}
 	tp := "T|" + app + "|" + t.Name
 	r.begin(width)
 	kw := "!type"
@@ -753,6 +927,9 @@ func (r *renderer) epD(app string, e EpD, width int) *node {
 		r.gap()
 		r.tok(quote(e.Long))
 	}
+	if len(e.Params) > 0 {
+		n.Kids = append(n.Kids, r.params(ep, e.Params)...)
+	}
 	if len(e.Attrs) > 0 {
 		r.ogap(" ")
 		n.Attrs = r.attribs(e.Attrs, []string{ep}, nil)
@@ -814,15 +991,27 @@ func (r *renderer) rest(app string, x Rest, width int, prefix string, up []*inh)
 				}
 			}
 		}
-		if r.opts.plain || r.lay.Chance(2, 3) || m.Query != "" || len(m.Attrs) > 0 {
+		if r.opts.plain || r.lay.Chance(2, 3) || m.Query != "" || len(m.Attrs) > 0 || len(m.Params) > 0 {
 			mn.First = r.tok(m.Verb)
 		} else {
 			mn.First = r.tok(m.Verb + strings.Repeat(" ", 1+r.lay.Intn(2))) // the verb token takes trailing blanks
 		}
+		if len(m.Params) > 0 {
+			mn.Kids = append(mn.Kids, r.params(ep, m.Params)...)
+		}
 		if m.Query != "" {
 			r.gap()
 			r.tok("?")
-			r.tok(m.Query)
+			// query parameters accumulate over the declarations of a method, like its parameters
+			qp := fmt.Sprintf("Q|%s|%d", ep, r.paramN["?"+ep])
+			r.paramN["?"+ep]++
+			qd := r.decl(kQuery, qp, []string{qp}, m.Query)
+			eq := strings.Index(m.Query, "=")
+			qn := &node{Kind: kQuery, Key: qd.Key}
+			qn.First = r.tok(m.Query[:eq])
+			r.tok("=")
+			qn.Last = r.tok(m.Query[eq+1:])
+			mn.Kids = append(mn.Kids, qn)
 		}
 		if len(m.Attrs) > 0 {
 			r.gap()
@@ -888,7 +1077,28 @@ func (r *renderer) block(b Block) *node {
 			n.Kids = append(n.Kids, r.epD(b.App, x, cw))
 		case Rest:
 			n.Kids = append(n.Kids, r.rest(b.App, x, cw, "", nil))
+		case Mixin:
+			r.begin(cw)
+			r.tok("-|>")
+			r.gap()
+			for i, p := range strings.Split(x.App, " :: ") {
+				if i > 0 {
+					r.ogap(" ")
+					r.tok("::")
+					r.ogap(" ")
+				}
+				r.tok(p)
+			}
+			r.end(false)
 		}
+	}
+	if len(b.Items) == 0 {
+		r.begin(cw)
+		hp := "E|" + b.App + "|..."
+		d := r.decl(kHolder, hp, []string{hp}, "...")
+		o := r.tok("...")
+		n.Kids = append(n.Kids, &node{Kind: kHolder, Key: d.Key, First: o, Last: o})
+		r.end(false)
 	}
 	return n
 }
@@ -929,13 +1139,25 @@ func render(s Spec, lay *common.Rng, o layoutOpts) Rendered {
 			r.hid("# leading note")
 			r.nl()
 		}
-		for _, im := range f.Imports {
-			r.tok("import")
-			r.hid(" ")
-			r.tok(im)
-			r.nl()
-		}
 		var forest []*node
+		for _, im := range f.Imports {
+			ip := fmt.Sprintf("I|%d", r.impN)
+			r.impN++
+			d := r.decl(kImport, ip, []string{ip}, "import "+im)
+			n := &node{Kind: kImport, Key: d.Key}
+			// the keyword token takes the white space behind it
+			if o.plain {
+				n.First = r.tok("import ")
+			} else {
+				n.First = r.tok("import" + []string{" ", " ", "  ", "\t", " \t"}[lay.Intn(5)])
+			}
+			n.Last = r.tok(im)
+			// no blanks behind the path: they leave the lexer's blockTextLine counter raised, and a later multi-word text
+			// statement is then lexed as one statement per word (a lexer matter outside this property: the locations
+			// of what IS compiled are right, but the renderer's statement numbering no longer applies)
+			r.nl()
+			forest = append(forest, n)
+		}
 		for _, b := range f.Blocks {
 			forest = append(forest, r.block(b))
 		}
